@@ -118,6 +118,13 @@ CHECKS = {
              "Nearest-8-bit rounding of arbitrary decimals and inner-whitespace lexing are not decided.",
         ref="DESIGN 3/C07",
         note=TB + "; embedded keyword table /verif/ref/css_named_colors.json (generated from tinycss2.color3, spot-checked against the CSS spec); thorough tier re-reads tinycss2's table"),
+    "C13": dict(
+        technique="static argument-wiring rules (reaching-definition origins, guard literals) from ColorPair.__init__ through Color._parse to every compositing call + formula-shape audit of the two source-over blends",
+        category="other",
+        text="Decides that the pair's own background is parsed first and is the only compositing context that reaches a translucent text colour on every path (white only when no background is supplied; a translucent background gets no context), "
+             "and that both compositors are per-channel fg*a + bg*(1-a) with matching indices, alpha 1 returning the colour itself. Covers every spelling and every background at once; the tests never build a ColorPair with translucent text on a non-white background. The 1.5-unit numeric bound is not decided.",
+        ref="DESIGN 3/C13",
+        note=TB + "; source-over definition from CSS Compositing"),
 }
 
 NOT_APPLICABLE = {
